@@ -746,6 +746,39 @@ func c05StrideAfterBranches(c *Ctx) {
 	}
 }
 
+// blameCommon is blameCaller for a helper that several functions call: when every one of its callers is itself
+// to be blamed on the same function (the code around the helper was split into pieces that all belong to one
+// caller), that function is to blame.
+func blameCommon(f *ssa.Function, pkgFns []*ssa.Function) *ssa.Function {
+	var rec func(f *ssa.Function, depth int) *ssa.Function
+	rec = func(f *ssa.Function, depth int) *ssa.Function {
+		if f == nil || depth > 6 || f.Parent() != nil || f.Object() == nil || f.Object().Exported() {
+			return f
+		}
+		callers := map[*ssa.Function]bool{}
+		for _, st := range callSitesOf(f, pkgFns) {
+			top := st.Parent()
+			for top.Parent() != nil {
+				top = top.Parent()
+			}
+			callers[top] = true
+		}
+		if len(callers) == 0 || callers[f] {
+			return f
+		}
+		var common *ssa.Function
+		for g := range callers {
+			b := rec(g, depth+1)
+			if common != nil && b != common {
+				return f
+			}
+			common = b
+		}
+		return common
+	}
+	return rec(f, 0)
+}
+
 // c05CandidateOrder: C05-R7.
 func c05CandidateOrder(c *Ctx) {
 	m := c.newMatchModel()
@@ -788,7 +821,7 @@ func c05CandidateOrder(c *Ctx) {
 			for top.Parent() != nil {
 				top = top.Parent()
 			}
-			bf := blameCaller(top, m.fns)
+			bf := blameCommon(top, m.fns)
 			if _, have := by[bf]; !have {
 				order = append(order, bf)
 			}
